@@ -350,6 +350,18 @@ def rule_I4(ctx):
         ctx.ob("I4", fa, f"library-level short-read failure `{nm}` ({why}) becomes ConstructError", ok, "" if ok else f"`{nm}` escapes", inst=f"converted:{nm}")
     h = caught.get("InvalidCharacter")
     ctx.ob("I4", fa, "an invalid name character inside a file becomes ConstructError", h is not None and "ConstructError" in raises_in(h.body), "", inst="converted:InvalidCharacter")
+    # the partition scan ends at the first header that cannot be parsed, whatever the reason (wrong magic, or cut off by the end
+    # of the image: StreamError / ConstError / ... are all ConstructError)
+    lp_ = ctx.fn("smpl_extract/akai/image.py", "AkaiImageParser._load_partitions", "I4")
+    pcalls = [c for c in own_nodes(lp_) if isinstance(c, ast.Call) and isinstance(c.func, ast.Attribute) and c.func.attr == "parse_stream"]
+    ok = len(pcalls) == 1
+    det = "" if ok else f"{len(pcalls)} partition parse calls"
+    if ok:
+        h = find_try_handler(pcalls[0], lp_, {"ConstructError", "Exception", "BaseException"})
+        names_ = set(handler_names(h)) if h is not None and h.type is not None else (set() if h is None else {"BaseException"})
+        ok = h is not None and bool(names_ & {"ConstructError", "Exception", "BaseException"}) and not raises_in(h.body)
+        det = "" if ok else f"the handler around the partition parse catches {sorted(handler_names(find_try_handler(pcalls[0], lp_, {'InvalidPartition', 'ConstError', 'StreamError', 'ConstructError'}) or ast.ExceptHandler(type=None, name=None, body=[]))) or 'nothing'}: a header cut off by the end of the image (StreamError) escapes and nothing is listed or exported"
+    ctx.ob("I4", lp_, "an unparsable partition header (any ConstructError) ends the partition scan; the partitions before it stay usable", ok, det, inst="partition-scan-handler")
     # a read beyond a file's chain is a short read
     ga = ctx.fn("smpl_extract/util/fat.py", "FileStream._get_address_given_sector_index", "I4")
     from .sem import single_defs as _sd
@@ -795,3 +807,39 @@ def rule_I8(ctx):
     ctx.ob("I8", ctx.prog.module("smpl_extract/structural.py").tree.body[0], "memoised collection properties were found and their users examined", len(memo) >= 5,
            f"{sorted(memo)}", inst="memo-properties", file="smpl_extract/structural.py", qualname="<module>")
     ctx.fact("I8", "memo properties", sorted(memo))
+
+
+# ------------------------------------------------------------------------ I9
+_MEMO_DECOS = {"lru_cache", "cache", "cached_property", "memoize", "memoized"}
+
+
+def rule_I9(ctx):
+    """a function that builds an object with state of its own (a stream with a cursor, an element, a list) returns a new one on
+    every call: it carries no memoising decorator - two callers sharing one stream would move each other's cursor"""
+    n = 0
+    for m, q, fn in ctx.prog.all_functions():
+        for d in fn.decorator_list:
+            core = d.func if isinstance(d, ast.Call) else d
+            nm = core.attr if isinstance(core, ast.Attribute) else (core.id if isinstance(core, ast.Name) else None)
+            if nm not in _MEMO_DECOS:
+                continue
+            n += 1
+            # what does it return?  a constructor call of a package class / a container display -> shared mutable state
+            builds = []
+            for r in own_nodes(fn):
+                if isinstance(r, ast.Return) and r.value is not None:
+                    v = r.value
+                    if isinstance(v, ast.Name):
+                        ds = [a.value for a in own_nodes(fn) if isinstance(a, ast.Assign) and any(isinstance(t, ast.Name) and t.id == v.id for t in a.targets)]
+                        v = ds[-1] if ds else v
+                    if isinstance(v, (ast.List, ast.Dict, ast.Set, ast.ListComp, ast.DictComp, ast.SetComp)):
+                        builds.append(norm(v)[:40])
+                    elif isinstance(v, ast.Call) and isinstance(v.func, ast.Name):
+                        rr = ctx.prog.resolve(m, v.func.id)
+                        if (rr and rr[0] == "class") or v.func.id in ("list", "dict", "set", "bytearray", "open"):
+                            builds.append(norm(v)[:40])
+            ok = not builds
+            ctx.ob("I9", fn, "object-building functions are not memoised", ok, "" if ok else f"@{nm} on {q}, which returns `{builds[0]}`: every caller gets the same object", inst=f"memo:{m.path}:{q}", file=m.path)
+    ctx.ob("I9", ctx.prog.module("smpl_extract/akai/sat.py").tree.body[0], "stream factories were examined for memoising decorators", True, f"{n} decorated functions", inst="examined",
+           file="smpl_extract/akai/sat.py", qualname="<module>")
+    ctx.fact("I9", "memoised functions", n)
